@@ -354,7 +354,7 @@ __CPROVER_ensures(__CPROVER_return_value == ((__cmd == NULL || __cmd->error) ? 1
 #define DECL_cmd_error_msg(NAME) const char *NAME(const verif_cmd_t *__cmd) CMD_FRESH_OR_NULL __CPROVER_assigns() \
 __CPROVER_ensures(__CPROVER_return_value == (__cmd == NULL ? (const char *)0 : __cmd->error_msg))
 #define DECL_cmd_error_clear(NAME) void NAME(verif_cmd_t *__cmd) CMD_FRESH_OR_NULL \
-__CPROVER_assigns(__cmd != NULL: __cmd->error, __cmd->error_msg[0]) \
+__CPROVER_assigns(__cmd != NULL: __cmd->error, SPEC_ERRMSG_FRAME(__cmd)) \
 __CPROVER_ensures(__cmd == NULL || (__cmd->error == 0 && __cmd->error_msg[0] == 0))
 DECL_cmd_error(contract_C14_cmd_error);
 DECL_cmd_error_msg(contract_C14_cmd_error_msg);
